@@ -10,6 +10,12 @@ CHECKS={
 "C10":("model_checking","MemDisk.tla (RWMutex, two-step block copy, ghost linearization) is model checked as written and must be violated by each modelled breaking change; the gate table printed by TLC is forced on the real MemDisk through the verif hooks; concurrent inv/res histories of MemDisk are validated for linearizability by DiskLinTrace.tla (TLC searches linearization points) and those of FileDisk for per-address real-time order by DiskRegTrace.tla; the same driver runs under the Go race detector.",
   "Trusted: TLC, atomic sequence numbers for real-time order, unique write patterns. Data-race freedom itself is decided by Go's race detector (not a statement about specification states). Gate time-outs only suppress violations.",
   "TLA+ L2 spec + TLC; trace validation of concurrent histories (linearizability search); hook-forced schedules; race detector","§4.5, §5 C10"),
+"C11":("fault_enumeration","FileDisk.tla (system-call level: open/fstat/ftruncate/pread/pwrite/fsync, each able to fail, kill between calls, prior images of every length class) is model checked for SizeExact, ReadPromised, NoSilentFailure; its simulated behaviours and a systematic prior-length x numBlocks table are executed by child processes under strace, with the chosen system call made to fail (rotating errnos) at a calibrated occurrence, and every outcome compared with the specification; the strace logs are validated by DiskSyscallTrace.tla (a normal return requires the successful pwrite64/pread64/fsync).",
+  "Trusted: TLC, strace fault injection (per-thread occurrence counting; the driver pins its goroutine to a thread), the page cache surviving kill -9. Short transfer counts without error are outside the claim.",
+  "TLA+ L2 spec + TLC; model-generated fault/crash schedules executed under strace injection; syscall-trace validation","§4.5, §5 C11"),
+"C13":("fault_enumeration","AtomicCreate.tla (system-call level, two creators, crash/fail/retry, leftovers) is model checked: the as-written single-creator configuration satisfies AllOrNothing, Untouched, ExactAfterReturn, FlushedBeforeVisible; the real DirFs.AtomicCreate is killed (SIGKILL on syscall entry) and faulted (errno) by strace at every system call of the operation for several data sizes and leftover/old-content setups, followed by a second call; the strace log of every successful call is validated by AcSyscallTrace.tla (fsync of the temp descriptor after the last write and before renameat); concurrent creators/readers are interleaved at the verif hooks; MemFs AtomicCreate bursts are validated by FsLinTrace.tla.",
+  "Trusted: TLC, strace injection, kernel rename atomicity. Power loss is not observable (only process crashes and the order of flush and rename). Known finding: creators of one file name in different directories share root/<name>.tmp.",
+  "TLA+ L2 spec + TLC; crash/fault enumeration under strace; syscall-trace validation; hook-forced schedules","§4.6, §5 C13"),
 "C12":("model_checking","Filesys.tla/FsSem.tla (reference model) is model checked exhaustively; TLC-simulated valid histories with their specified replies are replayed on MemFs and DirFs (methods and package wrappers, unit sizes 1/3/4096/5000 bytes, caller buffers scribbled), and driver histories recorded from both implementations are validated by TLC against FsTrace.tla, including distinctness of concrete descriptor numbers.",
   "Trusted: TLC, the unit<->bytes coding, the kernel's file-system semantics under /tmp. Only histories inside the documented preconditions (FsSem!Valid) are judged.",
   "TLA+ spec + TLC exhaustive check; spec->code behaviour replay; code->spec trace validation","§4.6, §5 C12"),
